@@ -607,7 +607,7 @@ def run(tier, seed, replay=None):
     if bdir is None:
         return rep.finish()
     rng = random.Random(seed)
-    n = 300 if tier == "quick" else 6000
+    n = 1200 if tier == "quick" else 20000
     if replay:
         cases = [[l.strip() for l in open(replay) if l.strip() and not l.startswith("#")]]
     else:
